@@ -1,4 +1,5 @@
 import KG.Spec.LimiterLoop
+import KG.Spec.RemoteLimiter
 import KG.Props.C07
 import KG.Props.C18
 /-!
@@ -371,6 +372,7 @@ theorem remoteSync_shape (l t n q b : Int) (h0 : 0 ≤ t) (h1 : t ≤ maxInt32) 
   · rw [if_neg hc]
     simp [remShape, RemoteLimiter.GFC.inner, RemoteLimiter.Lim.kind, RemoteLimiter.itemType, mkItem,
       RemoteLimiter.Remote.strategy, RemoteLimiter.GFC.resize, toU32_id' hb.1 hb1]
+    try exact resize_mi' _ _
 
 /-- `upstreamLimiter.Sync` with a valid allocate schema: never panics, the local limiter enforces exactly the new local
     limit, the remote wrapper is kept as it is; readiness and shard count are untouched -/
@@ -380,7 +382,8 @@ theorem step_schema {st : RemoteLimiter.State} (h : GwOK st) {l t : Int} (h0 : 0
   have hl : l ≤ maxInt32 := by omega
   cases hc : st.cache with
   | none =>
-    refine ⟨_, _, by simp only [RemoteLimiter.step, hc, newLim_mk h0 hl], rfl, rfl, rfl⟩
+    simp only [RemoteLimiter.step, hc, newLim_mk h0 hl]
+    refine ⟨_, _, rfl, rfl, ?_, ?_⟩ <;> rfl
   | some c =>
     obtain ⟨l0, t0, a0, a1, a2, hloc, hrem⟩ := h c hc
     by_cases hs : mkSchema l t = mkSchema l0 t0
@@ -389,10 +392,12 @@ theorem step_schema {st : RemoteLimiter.State} (h : GwOK st) {l t : Int} (h0 : 0
       have := localSync_same c.loc
       rw [hloc] at this
       simp only at this
-      refine ⟨_, _, by simp only [RemoteLimiter.step, hc, hloc, this], rfl, ?_, ?_⟩
+      simp only [RemoteLimiter.step, hc, hloc, this]
+      refine ⟨_, _, rfl, rfl, ?_, ?_⟩
       · simp
       · simp
-    · refine ⟨_, _, by simp only [RemoteLimiter.step, hc, hloc, localSync_mk hs h0 hl], rfl, ?_, ?_⟩
+    · simp only [RemoteLimiter.step, hc, hloc, localSync_mk hs h0 hl]
+      refine ⟨_, _, rfl, rfl, ?_, ?_⟩
       · simp
       · simp
 
@@ -432,12 +437,14 @@ theorem step_answer {st : RemoteLimiter.State} (h : GwOK st) (n : Int) :
       rcases hrem with hr | ⟨q, tv, _, _, hr⟩
       · rw [hr]; exact remoteSync_init l t n (by omega) a2
       · rw [hr]; exact remoteSync_shape l t n q _ (by omega) a2
-    refine ⟨c, l, t, _, _, rfl, hloc, by omega, a2, ?_, rfl, ?_, ?_⟩
-    · simp only [RemoteLimiter.step, hc, hcfg, he, hty, RemoteLimiter.cacheRemoteSync, hsync]
-      simp [bind, Except.bind]
-      rfl
-    · rfl
-    · rfl
+    have hstep : ∃ st' c', RemoteLimiter.step st (.answer true (mkItem n)) = .ok st' ∧ st'.cache = some c' ∧
+        c'.loc = c.loc ∧ c'.remote = some (remShape n (bound n t)) := by
+      simp only [RemoteLimiter.step, hc, hcfg, he, hty, RemoteLimiter.cacheRemoteSync, hsync]
+      simp only [bind, Except.bind, pure, Except.pure, Bool.not_true, Bool.false_eq_true, if_false, ne_eq,
+        not_true_eq_false]
+      refine ⟨_, _, rfl, rfl, ?_, ?_⟩ <;> rfl
+    obtain ⟨st', c', e1, e2, e3, e4⟩ := hstep
+    exact ⟨c, l, t, st', c', rfl, hloc, by omega, a2, e1, e2, e3, e4⟩
 
 theorem gwOK_answer {st st' : RemoteLimiter.State} (h : GwOK st) {c c' : RemoteLimiter.Cache} {l t n : Int}
     (hc : st.cache = some c) (hloc : c.loc = ⟨mkSchema l t, some (.mi l)⟩) (h0 : 0 ≤ t) (h1 : t ≤ maxInt32)
@@ -458,8 +465,9 @@ theorem gwOK_answer {st st' : RemoteLimiter.State} (h : GwOK st) {c c' : RemoteL
 
 /-- one heartbeat outcome: never panics, the cache (schema, limiters) is untouched -/
 theorem step_hb (st : RemoteLimiter.State) (ok : Bool) (now : Int) :
-    ∃ st', RemoteLimiter.step st (.hb ok now false) = .ok st' ∧ st'.cache = st.cache :=
-  ⟨_, by simp [RemoteLimiter.step], rfl⟩
+    ∃ st', RemoteLimiter.step st (.hb ok now false) = .ok st' ∧ st'.cache = st.cache := by
+  simp only [RemoteLimiter.step, Bool.false_eq_true, if_false]
+  exact ⟨_, rfl, rfl⟩
 
 /-! ## what such a gateway hands out -/
 
@@ -1173,7 +1181,208 @@ theorem cleanupUnknown_ups (shardOf : Nat → Nat) (s : Server) (u : Nat) :
   exact aget_map s.ups (fun k e => if s.isLeader (shardOf k) then e.drop (fun i => !s.hbHas i) else e) u
 
 
---C09-PROJECTION-HELPERS-GO-HERE
+/-- what C09's quantifier (`KG.Props.C09.Allowed .mi`) asks of one operation -/
+def C09Ok : RemoteLimiter.Op → Prop
+  | .schema s => KG.Spec.RemoteLimiter.validSchema s = true ∧ RemoteLimiter.guessType s = .mi
+  | .meter x => 0 < x.rateDen
+  | _ => True
+
+/-- `st` is reached by C09's model from the freshly constructed `upstreamLimiter` by an operation list inside C09's
+    quantifier (schemas accepted by validation, of the max-in-flight type) -/
+def GwReach (st : RemoteLimiter.State) : Prop :=
+  ∃ log : List RemoteLimiter.Op, (∀ op ∈ log, C09Ok op) ∧ RemoteLimiter.exec {} log = some st
+
+theorem exec_snoc : ∀ (log : List RemoteLimiter.Op) (st st' st'' : RemoteLimiter.State) (op : RemoteLimiter.Op),
+    RemoteLimiter.exec st log = some st' → RemoteLimiter.step st' op = .ok st'' →
+    RemoteLimiter.exec st (log ++ [op]) = some st''
+  | [], st, st', st'', op, h1, h2 => by
+    simp only [RemoteLimiter.exec, Option.some.injEq] at h1
+    subst h1
+    simp [RemoteLimiter.exec, h2]
+  | o :: rest, st, st', st'', op, h1, h2 => by
+    simp only [List.cons_append, RemoteLimiter.exec] at h1 ⊢
+    cases hs : RemoteLimiter.step st o with
+    | error e => rw [hs] at h1; cases h1
+    | ok s1 =>
+      rw [hs] at h1
+      simp only at h1 ⊢
+      exact exec_snoc rest s1 st' st'' op h1 h2
+
+theorem gwReach_step {st st' : RemoteLimiter.State} {op : RemoteLimiter.Op} (h : GwReach st)
+    (hs : RemoteLimiter.step st op = .ok st') (hop : C09Ok op) : GwReach st' := by
+  obtain ⟨log, h1, h2⟩ := h
+  refine ⟨log ++ [op], ?_, exec_snoc log _ _ _ op h2 hs⟩
+  intro o ho
+  rcases List.mem_append.1 ho with e | e
+  · exact h1 o e
+  · simp only [List.mem_singleton] at e
+    subst e; exact hop
+
+theorem gwReach_init (n : Nat) : GwReach (gwInit n) :=
+  ⟨[.shards n], by intro o ho; simp only [List.mem_singleton] at ho; subst ho; trivial, rfl⟩
+
+theorem valid_mk {l t : Int} (h0 : 0 ≤ l) (h1 : l ≤ t) (h2 : t ≤ maxInt32) : C09Ok (.schema (mkSchema l t)) := by
+  constructor
+  · simp [KG.Spec.RemoteLimiter.validSchema, mkSchema, h0, h1, h2]
+  · simp [RemoteLimiter.guessType, mkSchema]
+
+/-- the loop invariant extended with the projection -/
+structure RInv (s : State) : Prop where
+  inv : LInv s
+  reach : ∀ g ∈ s.gws, ∀ u, GwReach (g.st s.nShards u)
+
+theorem rinv_setGw {s : State} (h : RInv s) (g : Nat) (x : Gw) (hx : GwInv s.nShards x)
+    (hr : ∀ u, GwReach (x.st s.nShards u)) : RInv (s.setGw g x) := by
+  refine ⟨linv_setGw h.inv g x hx, ?_⟩
+  intro y hy u
+  rcases List.mem_or_eq_of_mem_set hy with e | e
+  · exact h.reach y e u
+  · subst e; exact hr u
+
+theorem rinv_srv {s : State} (h : RInv s) (srv' : Server) (hs : SrvInv srv') : RInv { s with srv := srv' } :=
+  ⟨linv_srv h.inv srv' hs, h.reach⟩
+
+/-- one C09 step of the limiter for `u` keeps every limiter of the gateway reachable -/
+theorem reach_apply {n : Nat} {g : Gw} (hr : ∀ v, GwReach (g.st n v)) (u : Nat) (op : RemoteLimiter.Op) (hop : C09Ok op)
+    (hok : ∀ st0, aget g.ups u = some st0 → ∃ st', RemoteLimiter.step st0 op = .ok st') :
+    ∀ v, GwReach ((g.apply n u op).st n v) := by
+  intro v
+  cases hu : aget g.ups u with
+  | none => simp only [Gw.apply, hu]; exact hr v
+  | some st0 =>
+    obtain ⟨st', hstep⟩ := hok st0 hu
+    have hap : (g.apply n u op).ups = aset g.ups u st' := by simp [Gw.apply, hu, stepOr, hstep]
+    obtain ⟨hsu, hsv⟩ := st_of_aset n g (g.apply n u op) u _ hap
+    by_cases hv : v = u
+    · subst hv; rw [hsu]
+      have h0 : g.st n v = st0 := by simp [Gw.st, hu]
+      exact gwReach_step (h0 ▸ hr v) hstep hop
+    · rw [hsv v hv]; exact hr v
+
+theorem reach_heartbeat {n : Nat} {g : Gw} (hr : ∀ v, GwReach (g.st n v)) (ok : Bool) (now : Int) :
+    ∀ v, GwReach ((g.heartbeat ok now).st n v) := by
+  intro v
+  rw [st_heartbeat]
+  cases hu : aget g.ups v with
+  | none => exact gwReach_init n
+  | some st =>
+    obtain ⟨st', h1, _⟩ := step_hb st ok now
+    have h0 : g.st n v = st := by simp [Gw.st, hu]
+    simp only [stepOr, h1]
+    exact gwReach_step (h0 ▸ hr v) h1 trivial
+
+theorem rinv_step (shardOf : Nat → Nat) {s : State} (h : RInv s) (op : Op) (hop : OpOK op) :
+    RInv (step shardOf s op) := by
+  have hl := linv_step shardOf h.inv op hop
+  have hsrv : (step shardOf s op).gws = s.gws → (step shardOf s op).nShards = s.nShards →
+      RInv (step shardOf s op) := fun e1 e2 => ⟨hl, by rw [e1, e2]; exact h.reach⟩
+  cases op with
+  | list u t => exact hsrv rfl rfl
+  | handle u => exact hsrv rfl rfl
+  | tick now => exact hsrv rfl rfl
+  | unknownPass => exact hsrv rfl rfl
+  | elect k b => exact hsrv rfl rfl
+  | gain k => exact hsrv rfl rfl
+  | lose k => exact hsrv rfl rfl
+  | gwSchema g u l t =>
+    simp only [step] at hl ⊢
+    split
+    · exact h
+    · rename_i x hx
+      split
+      · have hxi := h.inv.gws x (gw_mem hx)
+        refine rinv_setGw h g _ (gwInv_schema hxi u hop.1 hop.2.1 hop.2.2) ?_
+        intro v
+        change GwReach ((x.apply s.nShards u (.schema (mkSchema l t))).st s.nShards v)
+        refine reach_apply (h.reach x (gw_mem hx)) u _ (valid_mk hop.1 hop.2.1 hop.2.2) ?_ v
+        intro st0 hu
+        have h0 : x.st s.nShards u = st0 := by simp [Gw.st, hu]
+        obtain ⟨st', _, hstep, _⟩ := step_schema (hxi.ok u) hop.1 hop.2.1 hop.2.2
+        exact ⟨st', h0 ▸ hstep⟩
+      · exact h
+  | hb g now =>
+    simp only [step] at hl ⊢
+    split
+    · exact h
+    · rename_i x hx
+      have hxi := h.inv.gws x (gw_mem hx)
+      split
+      · exact h
+      · split
+        · exact rinv_srv (rinv_setGw h g _ (gwInv_heartbeat hxi true _) (reach_heartbeat (h.reach x (gw_mem hx)) true _))
+            _ (srvInv_heartbeat h.inv.srv _ _)
+        · exact rinv_setGw h g _ (gwInv_heartbeat hxi false _) (reach_heartbeat (h.reach x (gw_mem hx)) false _)
+  | report g u x m used lvl =>
+    simp only [step] at hl ⊢
+    split
+    · exact h
+    · rename_i gw hgw
+      split
+      · exact h
+      · rename_i hrep
+        split
+        · exact h
+        · rename_i srv' n hsr
+          have hgi := h.inv.gws gw (gw_mem hgw)
+          have hcache : ((gw.st s.nShards u).cache).isSome = true := by
+            simp [reports] at hrep
+            cases hcc : (gw.st s.nShards u).cache with
+            | none => exact absurd hcc hrep.1.2
+            | some _ => rfl
+          have hsrv' : SrvInv srv' := by
+            have := srvInv_report shardOf h.inv.srv u gw.id x m used lvl
+            rw [hsr] at this; exact this
+          refine rinv_srv (rinv_setGw h g _ (gwInv_answer hgi u n hcache) ?_) _ hsrv'
+          intro v
+          change GwReach ((gw.apply s.nShards u (.answer true (mkItem n))).st s.nShards v)
+          refine reach_apply (h.reach gw (gw_mem hgw)) u (.answer true (mkItem n)) trivial ?_ v
+          intro st0 hu
+          have h0 : gw.st s.nShards u = st0 := by simp [Gw.st, hu]
+          rcases step_answer (hgi.ok u) n with ⟨_, hstep⟩ | ⟨_, _, _, st', _, _, _, _, _, hstep, _⟩
+          · exact ⟨_, h0 ▸ hstep⟩
+          · exact ⟨st', h0 ▸ hstep⟩
+  | net g b =>
+    simp only [step] at hl ⊢
+    split
+    · exact h
+    · rename_i x hx
+      exact rinv_setGw h g _ (gwInv_congr (h.inv.gws x (gw_mem hx)) rfl rfl)
+        (fun v => by change GwReach (x.st s.nShards v); exact h.reach x (gw_mem hx) v)
+  | crash g =>
+    simp only [step] at hl ⊢
+    split
+    · exact h
+    · rename_i x hx
+      exact rinv_setGw h g _ (gwInv_congr (h.inv.gws x (gw_mem hx)) rfl rfl)
+        (fun v => by change GwReach (x.st s.nShards v); exact h.reach x (gw_mem hx) v)
+  | ret g id =>
+    simp only [step] at hl ⊢
+    split
+    · exact h
+    · rename_i x hx
+      refine rinv_setGw h g _ (gwInv_started s.nShards s.nUp _ rfl rfl) ?_
+      intro v
+      have : ({ x with id := id, alive := true, ups := freshUps s.nShards s.nUp, fresh := [] } : Gw).st s.nShards v
+          = gwInit s.nShards := by simp only [Gw.st]; exact aget_freshUps _ _ _
+      rw [this]; exact gwReach_init _
+
+theorem rinv_init (nShards nGw nUp : Nat) (k8s : Bool) : RInv (init nShards nGw nUp k8s) := by
+  refine ⟨linv_init nShards nGw nUp k8s, ?_⟩
+  intro g hg u
+  simp only [init, List.mem_map, List.mem_range] at hg
+  obtain ⟨i, _, rfl⟩ := hg
+  have : (⟨i, true, true, freshUps nShards nUp, []⟩ : Gw).st nShards u = gwInit nShards := by
+    simp only [Gw.st]; exact aget_freshUps _ _ _
+  simp only [init]
+  rw [this]; exact gwReach_init _
+
+theorem rinv_run (shardOf : Nat → Nat) : ∀ (ops : List Op) (s : State), RInv s → (∀ op ∈ ops, OpOK op) →
+    RInv (run shardOf s ops)
+  | [], s, h, _ => h
+  | op :: rest, s, h, hops => by
+    simp only [run, List.foldl_cons]
+    exact rinv_run shardOf rest _ (rinv_step shardOf h op (hops op List.mem_cons_self))
+      (fun o ho => hops o (List.mem_cons_of_mem _ ho))
 
 /-- the history never lowers the configured global limit of an upstream (`KG.Props.C07.Legal` for the loop): every
     `.list u t` carries a `t` at least as large as the limit the lister had for `u` -/
